@@ -75,8 +75,10 @@ def build_penne(profile="release"):
     overflows its 8 MiB stack at nesting depths of 31..64, which says nothing about the compiler."""
     if (common.REPO, profile) in _penne:
         return _penne[(common.REPO, profile)]
-    target = os.path.join(common.WORK, "pipeline-target" if os.path.realpath(common.REPO) == "/repo"
-                          else "pipeline-target-" + repo_tag())
+    # scratch trees (PENNE_REPO != /repo: mutation and seed runs) build next to the scratch copy of the harness, so that
+    # removing /tmp/pvh-<tag> (tools/run_seed.sh does) removes this target dir too
+    target = (os.path.join(common.WORK, "pipeline-target") if os.path.realpath(common.REPO) == "/repo"
+              else os.path.join("/tmp", "pvh-" + repo_tag(), "penne-target"))
     os.makedirs(target, exist_ok=True)
     t0 = time.time()
     with open(os.path.join(target, ".pipeline-lock"), "w") as lock:
